@@ -966,7 +966,10 @@ def install(prog):
                 return NONE
             return some(rebuild_seq(v, items[lo:hi]))
         if is_sym(i):
-            raise Unsupported('symbolic slice index')
+            if ctx.branch(binop('Lt', i, len(items), 64, False)):
+                i = ctx.concretize_int(i, list(range(len(items))))
+            else:
+                return NONE
         if i < len(items):
             if callee.endswith('get_mut') and type(a[0]) is Ref:
                 r = a[0]
@@ -1007,7 +1010,10 @@ def install(prog):
                 raise Panic('range end index out of range for slice')
             return rebuild_seq(v, items[lo:hi])
         if is_sym(i):
-            raise Unsupported('symbolic index')
+            if ctx.branch(binop('Lt', i, len(items), 64, False)):
+                i = ctx.concretize_int(i, list(range(len(items))))
+            else:
+                raise Panic('index out of bounds: the len is %d but the index is symbolic' % len(items))
         if i >= len(items):
             raise Panic('index out of bounds: the len is %d but the index is %d' % (len(items), i))
         if 'IndexMut' in callee and type(a[0]) is Ref:
